@@ -259,31 +259,57 @@ def main(path):
   env = spec.get("env") or {}
   variants = env.get("variants") or [{}]
   sentinels = env.get("sentinels") or {}
-  pres, posts = [], []
-  for var in variants:
-    sargs = json.loads(json.dumps(spec["args"]))
-    for k, v in var.items():
-      sargs[k] = {"scalar": v}
-    vals, arrays = build_arrays(sargs, specs)
-    for label, sv in sentinels.items():
-      arrays[label].fill_(sv)
-    pre = {k: v.numpy().copy() for k, v in arrays.items()}
-    print("launching", kernel.key, "tid", tid, "variant", var, flush=True)
-    wp.launch(st, dim=1, inputs=vals + [int(x) for x in tid], device="cpu")
-    wp.synchronize()
-    pres.append(pre)
-    posts.append({k: v.numpy().copy() for k, v in arrays.items()})
-  if spec["kind"] == "bounds":
-    print("NOT-REPRODUCED: kernel completed under the bounds-checked build")
-    return 3
-  modn, fn = spec["goal"].split(":")
-  g = getattr(importlib.import_module(modn), fn)
-  if len(variants) == 1:
-    ok, text = g(spec, pres[0], posts[0])
-  else:
-    ok, text = g(spec, pres, posts)
-  print(("REPRODUCED: " if not ok else "NOT-REPRODUCED: ") + str(text))
-  return 0 if not ok else 3
+  ntrials = int(env.get("randomize_floats") or 0) + 1
+  rng = np.random.default_rng(12345)
+  last = None
+  for trial in range(ntrials):
+    pres, posts = [], []
+    rand = {}
+    for var in variants:
+      sargs = json.loads(json.dumps(spec["args"]))
+      pokes = var.get("__poke__") or []
+      for k, v in var.items():
+        if k != "__poke__":
+          sargs[k] = {"scalar": v}
+      vals, arrays = build_arrays(sargs, specs)
+      if trial > 0:
+        # keep the solver's integers (control flow, indices); re-draw float contents to make the read value matter
+        for label, arr in arrays.items():
+          a = arr.numpy()
+          if a.dtype.kind == "f" and a.size:
+            if label not in rand:
+              rand[label] = rng.uniform(0.25, 2.0, size=a.shape).astype(a.dtype) * rng.choice([-1.0, 1.0], size=a.shape).astype(a.dtype)
+            arr.assign(rand[label])
+      for label, idx, comp, value in pokes:
+        a = arrays[label].numpy()
+        if comp is None:
+          a[tuple(idx)] = value
+        else:
+          a[tuple(idx)].reshape(-1)[comp] = value
+        arrays[label].assign(a)
+      for label, sv in sentinels.items():
+        arrays[label].fill_(sv)
+      pre = {k: v.numpy().copy() for k, v in arrays.items()}
+      print("launching", kernel.key, "tid", tid, "variant", var, "trial", trial, flush=True)
+      wp.launch(st, dim=1, inputs=vals + [int(x) for x in tid], device="cpu")
+      wp.synchronize()
+      pres.append(pre)
+      posts.append({k: v.numpy().copy() for k, v in arrays.items()})
+    if spec["kind"] == "bounds":
+      print("NOT-REPRODUCED: kernel completed under the bounds-checked build")
+      return 3
+    modn, fn = spec["goal"].split(":")
+    g = getattr(importlib.import_module(modn), fn)
+    if len(variants) == 1:
+      ok, text = g(spec, pres[0], posts[0])
+    else:
+      ok, text = g(spec, pres, posts)
+    last = text
+    if not ok:
+      print("REPRODUCED: " + str(text) + (f" (float inputs re-drawn, trial {trial})" if trial else ""))
+      return 0
+  print("NOT-REPRODUCED: " + str(last))
+  return 3
 
 
 if __name__ == "__main__":
